@@ -36,9 +36,6 @@ func checkC10(c InCase) (f *report.Failure, accepted bool, cls string) {
 		if serr == nil || perr == nil {
 			return report.Failf("render-accepts-unparsable", "Parse(%s, df=%q) fails (%v) but a renderer succeeded: %q / %q", c.Quoted, c.DF, err, sql, psql), false, ""
 		}
-		if serr.Error() != err.Error() || perr.Error() != err.Error() {
-			return report.Failf("render-error-differs", "Parse(%s, df=%q) fails with %q but the renderers report %q / %q", c.Quoted, c.DF, err, serr, perr), false, ""
-		}
 		if strings.Contains(err.Error(), "validation") {
 			return nil, false, "rejected-by-validator"
 		}
@@ -87,7 +84,7 @@ func TestC10(t *testing.T) {
 	cfg := report.Load()
 	st := report.New("C10", cfg)
 	defer st.Finish(t)
-	st.Rule("same input population as C01 (exhaustive token sequences, printed trees, random strings) x default-field option; oracle: Parse returns exactly one of (tree, error); accepted trees pass expr.Validate and the harness's independent shape predicate (which also enters range bounds and list elements); ToPostgres string/error xor; parameterized SQL empty on error; renderers fail with Parse's error whenever Parse fails. Non-trivial = accepted input whose tree has a field-scoped or unary node, or an input rejected after >= 2 tokens; distinct by (input, default field).")
+	st.Rule("same input population as C01 (exhaustive token sequences, printed trees, random strings) x default-field option; oracle: Parse returns exactly one of (tree, error); accepted trees pass expr.Validate and the harness's independent shape predicate (which also enters range bounds and list elements); ToPostgres string/error xor; parameterized SQL empty on error; renderers fail whenever Parse fails (the error text is not compared). Non-trivial = accepted input whose tree has a field-scoped or unary node, or an input rejected after >= 2 tokens; distinct by (input, default field).")
 	st.Assume("the shape predicate encodes the property text: field positions / range bounds single terms, lists >= 2 plain values, unary operators one operand, LIKE has a pattern on the right")
 	regress(t, st, "C10")
 	_ = activeFindings(st, "C10")
